@@ -408,6 +408,92 @@ fn instances(tier: Tier) -> Vec<Inst> {
     v
 }
 
+/// The adaptors as byte streams for a consumer other than Framed: whatever the sizes of the reads
+/// (plain reads of k bytes, read_exact across datagram boundaries - which hands the adaptor a partly
+/// filled buffer), the bytes read are the datagram payloads in order.
+fn adaptor_stream_checks(acc: &mut crate::report::Acc) {
+    let dgram_sets: Vec<Vec<usize>> = vec![vec![800, 800, 800, 800], vec![1020, 4, 1020, 4], vec![4; 12], vec![252, 1016, 8, 600], vec![1020, 1020, 1020]];
+    let read_sets: Vec<Vec<usize>> = vec![vec![2000, 1200], vec![1, 3, 1019, 5], vec![1020, 1020], vec![7; 9], vec![3000], vec![1021, 1021]];
+    for imp in [Impl::Blocking, Impl::Tokio] {
+        for ds in &dgram_sets {
+            for rs in &read_sets {
+                let total: usize = ds.iter().sum();
+                let mut plan: Vec<usize> = vec![];
+                let mut left = total;
+                let mut j = 0;
+                while left > 0 {
+                    let n = rs[j % rs.len()].min(left);
+                    plan.push(n);
+                    left -= n;
+                    j += 1;
+                }
+                let payloads: Vec<Vec<u8>> = ds.iter().enumerate().map(|(k, l)| (0..*l).map(|x| ((x * 7 + k * 31) % 251) as u8).collect()).collect();
+                let want: Vec<u8> = payloads.concat();
+                acc.eval();
+                let desc = format!("{imp:?} datagrams {ds:?} consumed by read_exact of {plan:?}");
+                let replay = json!({"site": "adaptor-stream", "case": desc});
+                let r = guard(|| adaptor_stream_case(imp, &payloads, &plan));
+                match r {
+                    Err(p) => acc.violate(0, format!("C08|{imp:?}|adaptor-stream|panic"), format!("{desc}: {p}"), replay),
+                    Ok(Err(e)) => acc.violate(0, format!("C08|{imp:?}|adaptor-stream|bytes-lost"), format!("{desc}: {e}"), replay),
+                    Ok(Ok(got)) if got == want => { acc.class("adaptor-stream-intact"); acc.nontrivial(); },
+                    Ok(Ok(got)) => {
+                        let at = got.iter().zip(&want).position(|(a, b)| a != b).unwrap_or(got.len().min(want.len()));
+                        acc.violate(0, format!("C08|{imp:?}|adaptor-stream|bytes-altered"), format!("{desc}: first difference at byte {at} ({} of {} bytes read)", got.len(), want.len()), replay)
+                    },
+                }
+            }
+        }
+    }
+}
+
+fn adaptor_stream_case(imp: Impl, payloads: &[Vec<u8>], plan: &[usize]) -> Result<Vec<u8>, String> {
+    match imp {
+        Impl::Blocking => {
+            let peer = std::net::UdpSocket::bind("127.0.0.1:0").map_err(|e| e.to_string())?;
+            let sock = std::net::UdpSocket::bind("127.0.0.1:0").map_err(|e| e.to_string())?;
+            sock.connect(peer.local_addr().unwrap()).map_err(|e| e.to_string())?;
+            peer.connect(sock.local_addr().unwrap()).map_err(|e| e.to_string())?;
+            sock.set_read_timeout(Some(WATCHDOG_CONFIRM)).unwrap();
+            let mut s = blocking_impl::UdpStream::from(sock);
+            for p in payloads {
+                let _ = peer.send(p).map_err(|e| e.to_string())?;
+            }
+            let mut got = vec![];
+            for n in plan {
+                let mut b = vec![0u8; *n];
+                s.read_exact(&mut b).map_err(|e| format!("read_exact({n}) after {} byte(s): {e}", got.len()))?;
+                got.extend_from_slice(&b);
+            }
+            Ok(got)
+        },
+        Impl::Tokio => {
+            use tokio::io::AsyncReadExt;
+            let rt = tokio::runtime::Builder::new_current_thread().enable_io().enable_time().build().unwrap();
+            rt.block_on(async {
+                let peer = tokio::net::UdpSocket::bind("127.0.0.1:0").await.map_err(|e| e.to_string())?;
+                let sock = tokio::net::UdpSocket::bind("127.0.0.1:0").await.map_err(|e| e.to_string())?;
+                sock.connect(peer.local_addr().unwrap()).await.map_err(|e| e.to_string())?;
+                peer.connect(sock.local_addr().unwrap()).await.map_err(|e| e.to_string())?;
+                let mut s = tokio_impl::UdpStream::from(sock);
+                for p in payloads {
+                    let _ = peer.send(p).await.map_err(|e| e.to_string())?;
+                }
+                let mut got = vec![];
+                for n in plan {
+                    let mut b = vec![0u8; *n];
+                    match tokio::time::timeout(WATCHDOG_CONFIRM, AsyncReadExt::read_exact(&mut s, &mut b)).await {
+                        Err(_) => return Err(format!("read_exact({n}) after {} byte(s) never returned (bytes of a datagram were lost)", got.len())),
+                        Ok(Err(e)) => return Err(format!("read_exact({n}) after {} byte(s): {e}", got.len())),
+                        Ok(Ok(_)) => got.extend_from_slice(&b),
+                    }
+                }
+                Ok(got)
+            })
+        },
+    }
+}
+
 /// every kind's B1 packet leaves as exactly one datagram holding exactly its frame
 fn write_checks(acc: &mut crate::report::Acc) {
     let kinds = spec::load();
@@ -537,6 +623,7 @@ pub fn run_check(tier: Tier, replay: Option<String>) -> i32 {
         acc.violate(hist.len() as u64, sig.clone(), detail.clone(), json!({"engine": "E2-udp", "instance_index": inst, "history": hist}));
     }
     write_checks(&mut acc);
+    adaptor_stream_checks(&mut acc);
     acc.samples.push(json!({"instance": insts[0].label, "history (datagram sizes)": [1020, 1020, 1020, 1020, 1020, 1016, 8]}));
     let mut extra = serde_json::Map::new();
     let _ = extra.insert("states".into(), json!(states));
